@@ -13,7 +13,8 @@ case = {
   "probe_dirs": [[3], ...], "probe_others": [other, ...]
 }
 result per case:
-  trace    : per op {"exc": type|None, "r": value|None, "flags": {attr: c_contiguous}}
+  trace    : per op {"exc": type|None, "r": value|None, "flags": {attr: c_contiguous},
+              "ref": the same query on a NEW object built at the pose reached so far (queries only)}
   flags0   : flags right after construction
   last_pose: the 16 floats of the array handed to the last update_pose (or pose0)
   upd/fresh: the observable battery on the object that lived through the history and on a
@@ -176,8 +177,15 @@ def run_case(case):
         out["flags0"] = flags(c)
         last = pose0
         trace = []
+
+        def fresh_now():
+            """a NEW object built directly at the pose the history has reached (reference for THIS operation)"""
+            return wrap(make(case["cls"], case["params"], np.array(last, dtype=float, order="C", copy=True)),
+                        case["margins"])
+
         for op in case["ops"]:
             k = op["op"]
+            ref = None
             if k == "update":
                 A = materialise_pose(op)
                 layout = dict(c=bool(A.flags.c_contiguous), f=bool(A.flags.f_contiguous),
@@ -188,21 +196,31 @@ def run_case(case):
             elif k == "support":
                 d = materialise_dir(op["d"], op.get("dsrc", "fresh"))
                 r = guarded(lambda: c.support_function(d))
+                if op.get("dsrc", "fresh") == "fresh":
+                    ref = guarded(lambda: fresh_now().support_function(np.array(op["d"], dtype=float)))
             elif k == "aabb":
                 r = guarded(c.aabb)
+                ref = guarded(lambda: fresh_now().aabb())
             elif k == "center":
                 r = guarded(c.center)
+                ref = guarded(lambda: fresh_now().center())
             elif k == "first_vertex":
                 r = guarded(c.first_vertex)
+                ref = guarded(lambda: fresh_now().first_vertex())
             elif k == "c2o":
                 r = guarded(c.collider2origin)
+                ref = guarded(lambda: fresh_now().collider2origin())
             elif k == "gjk":
                 o = op["other"]
                 oc = make(o["cls"], o["params"], arr44(o["pose"]))
                 r = guarded(lambda: gjk_dist(c, oc))
+                oc2 = make(o["cls"], o["params"], arr44(o["pose"]))
+                ref = guarded(lambda: gjk_dist(fresh_now(), oc2))
             else:
                 raise ValueError(k)
             r["flags"] = flags(c)
+            if ref is not None:
+                r["ref"] = ref
             trace.append(r)
         out["trace"] = trace
         out["last_pose"] = np.asarray(last, dtype=float).reshape(-1).tolist()
